@@ -122,7 +122,7 @@ class PathResult:
 
 
 class Explorer:
-    def __init__(self, max_paths=2000, feas_timeout_ms=3000):
+    def __init__(self, max_paths=2000, feas_timeout_ms=400):
         self.queue = [[]]
         self.max_paths = max_paths
         self.feas_timeout_ms = feas_timeout_ms
